@@ -404,7 +404,8 @@ impl<'a> Gen<'a> {
             let mut sc = gscope.clone();
             let mut ptxt = vec![];
             for (j, p) in params.iter().enumerate() { let pn = format!("p{}_{}", k, j); ptxt.push(format!("{} {}", kw(*p), pn)); sc.push((pn, *p, false)); }
-            let qual = if ret.is_some() && rr.chance(1, 2) { "const " } else { "inline " };
+            let _ = rr.chance(1, 2);
+            let qual = "inline ";     // (const functions may not mention registers: resolve_names rejects them)
             let rty = match ret { None => "void".to_string(), Some(t) => { let t2 = if self.flip("decltype") { other(t, &mut rr) } else { t }; kw(if t2 == Ty::S { Ty::I } else { t2 }).to_string() } };
             self.ret = Some(ret);
             let _ = writeln!(s, "{}{} {}({}) {{", qual, rty, name, ptxt.join(", "));
